@@ -83,6 +83,9 @@ fn finish_stats(run: &Run, opts: &BfsOpts, st: &BfsStats) {
     run.count("states", st.states);
     run.count("transitions", st.transitions);
     run.count("traces_validated_against_impl", st.transitions);
+    // every executed transition is an evaluation of the invariants; every distinct state beyond the initial one is a
+    // distinct non-trivial case (states are de-duplicated by the canonical key)
+    run.add_cases(st.transitions, st.states.saturating_sub(1));
     run.extra(
         &format!("bfs:{}", opts.label),
         json!({"states": st.states, "transitions": st.transitions, "depth_completed": st.depth_completed,
